@@ -16,7 +16,7 @@ enum E0 { E0_A, E0_B = 2, E0_C };\ntypedef uint U0;\nstatic const int c0 = 3;\ns
 Texture2D<float4> g_t2d;\nTexture2DArray<float4> g_t2da;\nTexture3D<float4> g_t3d;\nTextureCube<float4> g_tc;\nRWTexture2D<float4> g_rw2d;\nBuffer<float4> g_buf;\nRWBuffer<uint> g_rwbuf;\n\
 StructuredBuffer<S0> g_sb;\nRWStructuredBuffer<S0> g_rwsb;\nByteAddressBuffer g_bab;\nRWByteAddressBuffer g_rwbab;\nConstantBuffer<S0> g_cb;\nSamplerState g_ss;\nSamplerComparisonState g_scs;\n\
 cbuffer CB0 { float4x4 cb_m; float4 cb_v; float cb_f; int cb_i; uint cb_u; }\n\
-float hf0(float x) { return x * 2.0f; }\nint hi0(int x, int y = 1) { return x + y; }\ntemplate<typename T> T ht0(T x) { return x; }\nnamespace N0 { static const int nx = 1; int nf(int x) { return x; } struct NS { int a; }; namespace N1 { int nf2() { return 2; } } }\n";
+float4 dvs() : SV_Position { return float4(0, 0, 0, 1); }\nfloat4 dps() : SV_Target { return float4(0, 0, 0, 1); }\n[numthreads(1, 1, 1)] void dcs() {}\nfloat hf0(float x) { return x * 2.0f; }\nint hi0(int x, int y = 1) { return x + y; }\ntemplate<typename T> T ht0(T x) { return x; }\nnamespace N0 { static const int nx = 1; int nf(int x) { return x; } struct NS { int a; }; namespace N1 { int nf2() { return 2; } } }\n";
 
 /// file-scope items: (category, text)
 const SYN_ROOT: &[(&str, &str)] = &[
@@ -122,6 +122,53 @@ const SYN_ROOT: &[(&str, &str)] = &[
     ("namespace-reopened", "namespace ND{n} { int a() { return 1; } }\nnamespace ND{n} { int b() { return a(); } }"),
     ("namespace-empty", "namespace NE{n} {}"),
     ("namespace-contains-everything", "namespace NF{n} { struct S { int a; }; enum E { X }; typedef int T; cbuffer C { float ncf{n}; } Texture2D<float4> tex; template<typename T> T id(T x) { return x; } }"),
+    // ---- one item per diagnostic of the type checker that the other items do not reach (every error must render)
+    ("diag-array-dimension-not-specified", "static float dg{n}[];"),
+    ("diag-array-dimension-zero", "static float dg{n}[0];"),
+    ("diag-array-dimension-negative", "static float dg{n}[-1];"),
+    ("diag-array-dimension-huge", "static float dg{n}[4294967296];@@static float dh{n}[65536][65536];"),
+    ("diag-cbuffer-already-defined", "cbuffer DG{n} { float dga{n}; }\ncbuffer DG{n} { float dgb{n}; }"),
+    ("diag-struct-already-defined", "struct DS{n} { int a; };\nstruct DS{n} { int b; };"),
+    ("diag-enum-value-already-defined", "enum DE{n} { DEV{n}, DEV{n} };"),
+    ("diag-default-argument-missing", "void dg{n}(int a = 1, int b) {}"),
+    ("diag-default-template-argument-missing", "template<typename T = int, typename U> struct DT{n} { T a; U b; };"),
+    ("diag-enum-type-not-deduced", "enum DE{n} { DEA{n} = 1.5f };@@enum DF{n} { DFA{n} = 99999999999 };@@enum DG{n} { DGA{n} = -1, DGB{n} = 4294967295u };"),
+    ("diag-function-attribute-argument-count", "[numthreads(1, 1)] void dg{n}() {}@@[WaveSize] [numthreads(1, 1, 1)] void dh{n}() {}@@[outputtopology] void di{n}() {}@@[maxvertexcount(1, 2)] void dj{n}() {}"),
+    ("diag-function-attribute-argument-type", "[numthreads(1.5f, true, \"s\")] void dg{n}() {}@@[numthreads(0, 0, 0)] void dh{n}() {}@@[numthreads(-1, 1, 1)] void di{n}() {}@@[numthreads(c0 / 0, 1, 1)] void dj{n}() {}"),
+    ("diag-global-attribute-argument-count", "[[vk::binding]] ByteAddressBuffer dg{n};@@[[rssl::bind_group(1, 2)]] ByteAddressBuffer dh{n};@@[[rssl::bindless(1)]] Texture2D<float4> di{n}[4];@@[[vk::binding(1, 2, 3)]] ByteAddressBuffer dj{n};"),
+    ("diag-global-attribute-argument-type", "[[vk::binding(1.5f)]] ByteAddressBuffer dg{n};@@[[rssl::bind_group(-1)]] ByteAddressBuffer dh{n};@@[[rssl::bind_group(\"s\")]] ByteAddressBuffer di{n};@@[[vk::binding(4294967296)]] ByteAddressBuffer dj{n};"),
+    ("diag-illegal-names", "void linear() {}"),
+    ("diag-illegal-variable-name", "static int centroid = 1;"),
+    ("diag-illegal-struct-name", "struct sample { int a; };"),
+    ("diag-illegal-typedef-name", "typedef int point;"),
+    ("diag-scoped-declaration-name", "static int N0::dg{n} = 1;@@void N0::dh{n}() {}"),
+    ("diag-illegal-struct-base", "struct DS{n} : float { int a; };@@struct DT{n} : E0 { int a; };@@struct DU{n} : Texture2D { int a; };"),
+    ("diag-interpolation-modifier-on-output", "void dg{n}(out nointerpolation float x, inout centroid float y) { x = 1.0f; }"),
+    ("diag-invalid-output-topology", "[numthreads(1, 1, 1)] [outputtopology(\"quad\")] void dg{n}(out vertices V0 v[3], out indices uint3 t[1]) {}"),
+    ("diag-mesh-indices-type", "[numthreads(1, 1, 1)] [outputtopology(\"triangle\")] void dg{n}(out vertices V0 v[3], out indices float3 t[1]) {}@@[numthreads(1, 1, 1)] [outputtopology(\"triangle\")] void dh{n}(out vertices V0 v[3], out indices uint2 t[1]) {}"),
+    ("diag-register-on-non-object", "float4 dg{n} : register(t0);@@static int dh{n} : register(b0);"),
+    ("diag-two-registers", "Texture2D<float4> dg{n} : register(t0) : register(t1);"),
+    ("diag-semantic-on-global", "Texture2D<float4> dg{n} : FOO;@@static int dh{n} : SV_Target;"),
+    ("diag-cbuffer-annotations", "cbuffer DG{n} : SV_Target { float dga{n}; }@@cbuffer DH{n} : register(t0) { float dha{n}; }@@cbuffer DI{n} : register(b0) : register(b1) { float dia{n}; }@@cbuffer DJ{n} { float dja{n} : register(b0); float djb{n} : FOO; }"),
+    ("diag-bindless-cbuffer", "[[rssl::bindless]] cbuffer DG{n} { float dga{n}; }"),
+    ("diag-modifier-conflict", "row_major column_major float4x4 dg{n};@@static extern int dh{n};@@unorm snorm float di{n};@@void dj{n}(in out float x) {}@@static groupshared int dk{n};"),
+    ("diag-modifier-on-wrong-type", "row_major float dg{n};@@unorm int dh{n};@@snorm Texture2D di{n};"),
+    ("diag-incomplete-type", "static void dg{n};@@void dh{n}(void x) {}@@struct DS{n} { void a; };"),
+    ("diag-static-sampler-misuse", "Texture2D<float4> dg{n} = StaticSampler { };@@static SamplerState dh{n} = StaticSampler { };@@SamplerState di{n} : register(s0) = StaticSampler { };@@void dj{n}() { SamplerState s = StaticSampler { }; }"),
+    ("diag-sampler-property-argument-types", "const SamplerState dg{n} = StaticSampler { Filter = 1; };@@const SamplerState dh{n} = StaticSampler { MinLOD = Clamp; };@@const SamplerState di{n} = StaticSampler { MaxAnisotropy = 1.5f; };@@const SamplerState dj{n} = StaticSampler { AddressU = \"Clamp\"; };@@const SamplerState dk{n} = StaticSampler { BorderColor = { A = 1; } };"),
+    ("diag-template-parameter-redefined", "template<typename T, typename T> void dg{n}() {}@@template<int N, int N> void dh{n}() {}@@template<typename T, int T> void di{n}() {}"),
+    ("diag-unknown-type", "Foo{n} dg{n};@@void dh{n}(Bar{n} x) {}@@Baz{n} di{n}() {}"),
+    ("diag-redefinitions", "static int dg{n};\nstatic int dg{n};@@void dh{n}() {}\nvoid dh{n}() {}@@typedef int DT{n};\ntypedef float DT{n};@@static int di{n};\nvoid di{n}() {}@@struct DU{n} {};\nenum DU{n} { DUV{n} };@@namespace DV{n} {}\nstatic int DV{n};"),
+    ("diag-function-redeclared-differently", "int dg{n}(int a);\nfloat dg{n}(int a) { return 1.0f; }@@void dh{n}(int a = 1);\nvoid dh{n}(int a = 2) {}@@void di{n}(in int a);\nvoid di{n}(out int a) { a = 1; }"),
+    ("diag-object-type-arguments", "Texture2D<S0> dg{n};@@RWTexture2D dh{n};@@StructuredBuffer di{n};@@Buffer<float4, 2> dj{n};@@ConstantBuffer<float4> dk{n};@@RayQuery dl{n};@@Texture2D<Texture2D<float4> > dm{n};@@vector<float, 5> dn{n};@@vector<S0, 2> do{n};@@matrix<float, 0, 1> dp{n};@@vector<float, c0> dq{n};"),
+    ("diag-entry-point-signature", "[numthreads(1, 1, 1)] int dg{n}(float q) { return 1; }\nPipeline DP{n} { ComputeShader = dg{n}; }"),
+    ("diag-entry-point-template", "template<typename T> void dg{n}() {}\nPipeline DP{n} { ComputeShader = dg{n}; }"),
+    ("diag-entry-point-overloaded", "[numthreads(1, 1, 1)] void dg{n}() {}\n[numthreads(1, 1, 1)] void dg{n}(int x) {}\nPipeline DP{n} { ComputeShader = dg{n}; }"),
+    ("diag-entry-point-missing-numthreads", "void dg{n}() {}\nPipeline DP{n} { ComputeShader = dg{n}; }"),
+    ("diag-pipeline-argument-types", "Pipeline DP{n} { ComputeShader = dcs; DefaultBindGroup = \"x\"; }@@Pipeline DQ{n} { ComputeShader = \"dcs\"; }@@Pipeline DR{n} { ComputeShader = { A = 1; } }@@Pipeline DS{n} { ComputeShader = dcs; DefaultBindGroup = 1.5f; }@@Pipeline DT{n} { ComputeShader = dcs; DefaultBindGroup = { A = 1; } }@@Pipeline DU{n} { ComputeShader = dcs; DefaultBindGroup = 4294967296; }@@Pipeline DV{n} { ComputeShader = dcs; DefaultBindGroup = c0 / 0; }"),
+    ("diag-graphics-state-argument-types", "Pipeline DP{n} { VertexShader = dvs; PixelShader = dps; CullMode = 1; }@@Pipeline DQ{n} { VertexShader = dvs; PixelShader = dps; RenderTargetFormat0 = R8; }@@Pipeline DR{n} { VertexShader = dvs; PixelShader = dps; BlendState0 = 1; }@@Pipeline DS{n} { VertexShader = dvs; PixelShader = dps; BlendState0 = { Foo = 1; } }@@Pipeline DT{n} { VertexShader = dvs; PixelShader = dps; BlendState0 = { BlendOp = \"Subtrack\"; WriteMask = -1; } }@@Pipeline DU{n} { VertexShader = dvs; PixelShader = dps; RenderTargetFormat0 = \"NOPE\"; }@@Pipeline DV{n} { VertexShader = dvs; PixelShader = dps; WindingOrder = \"Up\"; }@@Pipeline DW{n} { VertexShader = dvs; PixelShader = dps; BlendState0 = { BlendEnabled = 2; } }@@Pipeline DX{n} { VertexShader = dvs; PixelShader = dps; BlendState0 = { SrcBlend = \"Nope\"; } }@@Pipeline DY{n} { VertexShader = dvs; PixelShader = dps; BlendState0 = { BlendOp = \"Nope\"; } }@@Pipeline DZ{n} { VertexShader = dvs; PixelShader = dps; BlendState0 = { WriteMask = 1.5f; } }@@Pipeline EA{n} { VertexShader = dvs; PixelShader = dps; BlendState = { } BlendState0 = { } }@@Pipeline EB{n} { VertexShader = dvs; PixelShader = dps; DepthTargetFormat = 1; }"),
+    ("diag-pipeline-stage-combinations", "Pipeline DP{n} { PixelShader = dps; }@@Pipeline DQ{n} { VertexShader = dvs; }@@Pipeline DR{n} { VertexShader = dvs; MeshShader = dvs; PixelShader = dps; }@@Pipeline DS{n} { TaskShader = dvs; PixelShader = dps; }@@Pipeline DT{n} { MeshShader = dvs; }@@Pipeline DU{n} { TaskShader = dcs; }@@Pipeline DV{n} { ComputeShader = dcs; TaskShader = dcs; }@@Pipeline DW{n} { VertexShader = dps; PixelShader = dvs; }@@Pipeline DX{n} { VertexShader = dcs; PixelShader = dcs; }"),
+    ("diag-pipeline-redefined", "[numthreads(1, 1, 1)] void dg{n}() {}\nPipeline DP{n} { ComputeShader = dg{n}; }\nPipeline DP{n} { ComputeShader = dg{n}; }"),
     ("root-stray-semicolons", ";;;"),
     ("reserved-word", "unsigned int rw{n};"),
     ("reserved-word-this", "struct RT{n} { int a; int f() { return this.a; } };"),
@@ -179,6 +226,20 @@ const SYN_STMT: &[(&str, &str)] = &[
     ("stmt-declaration-or-expression-ambiguity", "U0 * u;\nS0 (sx);"),
     ("stmt-typedef-in-body", "typedef int LT; LT q = 1;"),
     ("stmt-struct-in-body", "struct LS { int a; }; LS q;"),
+    ("diag-array-dimension-not-constant", "float da[i];"),
+    ("diag-array-dimension-local-unspecified", "float da[];"),
+    ("diag-array-dimension-local-extreme", "float da[0];@@float db[-1];@@float dc[4294967296];"),
+    ("diag-unroll-argument", "[unroll(i)] for (;;) break;@@[unroll(1.5f)] for (;;) break;@@[unroll(-1)] for (;;) break;@@[unroll(0)] for (;;) break;"),
+    ("diag-statement-attribute-argument-count", "[branch(1)] if (b) x = 1.0f;@@[unroll(1, 2)] for (;;) break;@@[loop(3)] for (;;) break;@@[flatten()] if (b) { }"),
+    ("diag-local-annotations", "float da : register(t0) = 1.0f;@@float db : SV_Target = 2.0f;@@float dc : packoffset(c0);"),
+    ("diag-local-storage-classes", "groupshared float da;@@extern float db;@@static float dc = 1.0f;@@in float dd;@@out float de;"),
+    ("diag-local-incomplete-type", "void da;@@Foo db;"),
+    ("diag-condition-types", "if (g_t2d) { }@@while (s0v) { }@@for (; v4;) { }@@do { } while (g_ss);@@switch (x) { default: break; }@@switch (v4) { default: break; }@@switch (b) { case true: break; }"),
+    ("diag-duplicate-case", "switch (i) { case 1: break; case 1: break; default: break; default: break; }"),
+    ("diag-return-type-mismatch", "return g_t2d;"),
+    ("diag-assignment-to-rvalue", "1 = i;@@x + y = 1.0f;@@hf0(x) = 2.0f;@@c0 = 1;@@E0_A = 1;@@(int)x = 1;@@i++ = 1;@@cb_f = 1.0f;@@g_sb[0].a = 1.0f;"),
+    ("diag-increment-of-rvalue", "c0++;@@++1;@@(x + y)--;@@b++;@@s0v++;@@g_t2d++;@@--E0_A;"),
+    ("diag-out-argument-rvalue", "sincos(x, 1.0f, y);@@g_t2d.GetDimensions(1u, u);@@InterlockedAdd(1u, 1u);@@InterlockedAdd(u, 1u);"),
     ("stmt-goto", "goto end;"),
     ("stmt-unterminated", "x = 1.0f"),
 ];
@@ -246,27 +307,59 @@ const SYN_EXPR: &[(&str, &str, &str)] = &[
     ("expr-template-args-greater-in-parentheses", "uint", "ht0<uint>((u > 1u) ? 1u : 0u)"),
     ("expr-address-of-dereference", "float", "*&x"),
     ("expr-initializer-list-as-expression", "float2", "{ 1.0f, 2.0f }"),
-    ("intrinsic-math", "float", "abs(x) + sin(x) + cos(y) + tan(x) + sqrt(abs(y)) + rsqrt(2.0f) + pow(x, y) + exp(x) + exp2(x) + log(x) + log2(x) + log10(x) + floor(x) + ceil(x) + trunc(x) + round(x) + frac(x) + fmod(x, y) + rcp(x) + sign(x) + saturate(x) + step(x, y) + smoothstep(0.0f, 1.0f, x) + atan2(x, y) + asin(x) + acos(x) + atan(x) + sinh(x) + cosh(x) + tanh(x)"),
-    ("intrinsic-vector", "float", "dot(v4, v4) + length(v4.xyz) + distance(v4.xy, v4.zw) + normalize(v4.xyz).x + cross(v4.xyz, v4.zyx).x + reflect(v4.xyz, v4.xyz).x + refract(v4.xyz, v4.xyz, 1.0f).x + lerp(x, y, 0.5f) + clamp(x, 0.0f, 1.0f) + min(x, y) + max(x, y) + mul(cb_m, v4).x + mul(v4, cb_m).x + transpose(cb_m)._m00 + determinant(cb_m)"),
-    ("intrinsic-logic", "bool", "all(v4 > 0.0f) || any(v4 < 0.0f) || isnan(x) || isinf(x) || isfinite(x) || all(and(v4 > 0.0f, v4 < 1.0f)) || any(or(v4 > 0.0f, v4 < 1.0f)) || select(b, true, false)"),
-    ("intrinsic-bits", "uint", "asuint(x) + (uint)asint(x) + countbits(u) + reversebits(u) + firstbithigh(u) + firstbitlow(u) + f32tof16(x) + asuint(asfloat(u)) + asuint(f16tof32(u))"),
+    ("intrinsic-math", "float", "abs(x) + sin(x) + cos(y) + tan(x) + sqrt(abs(y)) + rsqrt(2.0f) + pow(x, y) + exp(x) + exp2(x) + log(x) + log2(x) + log10(x) + floor(x) + ceil(x) + trunc(x) + round(x) + frac(x) + fmod(x, y) + rcp(x) + sign(x) + saturate(x) + step(x, y) + smoothstep(0.0f, 1.0f, x) + atan2(x, y) + asin(x) + acos(x) + atan(x) + sinh(x) + cosh(x) + tanh(x)@@abs(x)@@sin(x)@@cos(y)@@tan(x)@@sqrt(abs(y))@@rsqrt(2.0f)@@pow(x, y)@@exp(x)@@exp2(x)@@log(x)@@log2(x)@@log10(x)@@floor(x)@@ceil(x)@@trunc(x)@@round(x)@@frac(x)@@fmod(x, y)@@rcp(x)@@sign(x)@@saturate(x)@@step(x, y)@@smoothstep(0.0f, 1.0f, x)@@atan2(x, y)@@asin(x)@@acos(x)@@atan(x)@@sinh(x)@@cosh(x)@@tanh(x)"),
+    ("intrinsic-vector", "float", "dot(v4, v4) + length(v4.xyz) + distance(v4.xy, v4.zw) + normalize(v4.xyz).x + cross(v4.xyz, v4.zyx).x + reflect(v4.xyz, v4.xyz).x + refract(v4.xyz, v4.xyz, 1.0f).x + lerp(x, y, 0.5f) + clamp(x, 0.0f, 1.0f) + min(x, y) + max(x, y) + mul(cb_m, v4).x + mul(v4, cb_m).x + transpose(cb_m)._m00 + determinant(cb_m)@@dot(v4, v4)@@length(v4.xyz)@@distance(v4.xy, v4.zw)@@normalize(v4.xyz).x@@cross(v4.xyz, v4.zyx).x@@reflect(v4.xyz, v4.xyz).x@@refract(v4.xyz, v4.xyz, 1.0f).x@@lerp(x, y, 0.5f)@@clamp(x, 0.0f, 1.0f)@@min(x, y)@@max(x, y)@@mul(cb_m, v4).x@@mul(v4, cb_m).x@@transpose(cb_m)._m00@@determinant(cb_m)"),
+    ("intrinsic-logic", "bool", "all(v4 > 0.0f) || any(v4 < 0.0f) || isnan(x) || isinf(x) || isfinite(x) || all(and(v4 > 0.0f, v4 < 1.0f)) || any(or(v4 > 0.0f, v4 < 1.0f)) || select(b, true, false)@@all(v4 > 0.0f)@@any(v4 < 0.0f)@@isnan(x)@@isinf(x)@@isfinite(x)@@all(and(v4 > 0.0f, v4 < 1.0f))@@any(or(v4 > 0.0f, v4 < 1.0f))@@select(b, true, false)"),
+    ("intrinsic-bits", "uint", "asuint(x) + (uint)asint(x) + countbits(u) + reversebits(u) + firstbithigh(u) + firstbitlow(u) + f32tof16(x) + asuint(asfloat(u)) + asuint(f16tof32(u))@@asuint(x)@@(uint)asint(x)@@countbits(u)@@reversebits(u)@@firstbithigh(u)@@firstbitlow(u)@@f32tof16(x)@@asuint(asfloat(u))@@asuint(f16tof32(u))"),
     ("intrinsic-out-params", "float", "(sincos(x, y, x), modf(x, y))"),
-    ("intrinsic-derivatives", "float", "ddx(x) + ddy(x) + ddx_coarse(x) + ddy_coarse(x) + ddx_fine(x) + ddy_fine(x)"),
-    ("intrinsic-wave", "uint", "WaveGetLaneCount() + WaveGetLaneIndex() + (WaveIsFirstLane() ? 1u : 0u) + WaveActiveSum(u) + WaveActiveProduct(u) + WaveActiveMin(u) + WaveActiveMax(u) + WaveActiveBitAnd(u) + WaveActiveBitOr(u) + WaveActiveBitXor(u) + WaveActiveCountBits(b) + WavePrefixSum(u) + WavePrefixProduct(u) + WavePrefixCountBits(b) + WaveReadLaneAt(u, 0u) + WaveReadLaneFirst(u) + WaveActiveBallot(b).x + (WaveActiveAnyTrue(b) ? 1u : 0u) + (WaveActiveAllTrue(b) ? 1u : 0u) + (WaveActiveAllEqual(u) ? 1u : 0u)"),
-    ("intrinsic-quad", "float", "QuadReadAcrossX(x) + QuadReadAcrossY(x) + QuadReadAcrossDiagonal(x) + QuadReadLaneAt(x, 0u)"),
-    ("intrinsic-atomics-groupshared", "uint", "(InterlockedAdd(gs_pay.start, 1u), InterlockedAnd(gs_pay.start, 1u), InterlockedOr(gs_pay.start, 1u), InterlockedXor(gs_pay.start, 1u), InterlockedMin(gs_pay.start, 1u), InterlockedMax(gs_pay.start, 1u), InterlockedExchange(gs_pay.start, 1u, u), InterlockedCompareExchange(gs_pay.start, 0u, 1u, u), InterlockedCompareStore(gs_pay.start, 0u, 1u), u)"),
-    ("intrinsic-barriers", "int", "(AllMemoryBarrier(), AllMemoryBarrierWithGroupSync(), DeviceMemoryBarrier(), DeviceMemoryBarrierWithGroupSync(), GroupMemoryBarrier(), GroupMemoryBarrierWithGroupSync(), 0)"),
+    ("intrinsic-derivatives", "float", "ddx(x) + ddy(x) + ddx_coarse(x) + ddy_coarse(x) + ddx_fine(x) + ddy_fine(x)@@ddx(x)@@ddy(x)@@ddx_coarse(x)@@ddy_coarse(x)@@ddx_fine(x)@@ddy_fine(x)"),
+    ("intrinsic-wave", "uint", "WaveGetLaneCount() + WaveGetLaneIndex() + (WaveIsFirstLane() ? 1u : 0u) + WaveActiveSum(u) + WaveActiveProduct(u) + WaveActiveMin(u) + WaveActiveMax(u) + WaveActiveBitAnd(u) + WaveActiveBitOr(u) + WaveActiveBitXor(u) + WaveActiveCountBits(b) + WavePrefixSum(u) + WavePrefixProduct(u) + WavePrefixCountBits(b) + WaveReadLaneAt(u, 0u) + WaveReadLaneFirst(u) + WaveActiveBallot(b).x + (WaveActiveAnyTrue(b) ? 1u : 0u) + (WaveActiveAllTrue(b) ? 1u : 0u) + (WaveActiveAllEqual(u) ? 1u : 0u)@@WaveGetLaneCount()@@WaveGetLaneIndex()@@(WaveIsFirstLane() ? 1u : 0u)@@WaveActiveSum(u)@@WaveActiveProduct(u)@@WaveActiveMin(u)@@WaveActiveMax(u)@@WaveActiveBitAnd(u)@@WaveActiveBitOr(u)@@WaveActiveBitXor(u)@@WaveActiveCountBits(b)@@WavePrefixSum(u)@@WavePrefixProduct(u)@@WavePrefixCountBits(b)@@WaveReadLaneAt(u, 0u)@@WaveReadLaneFirst(u)@@WaveActiveBallot(b).x@@(WaveActiveAnyTrue(b) ? 1u : 0u)@@(WaveActiveAllTrue(b) ? 1u : 0u)@@(WaveActiveAllEqual(u) ? 1u : 0u)"),
+    ("intrinsic-quad", "float", "QuadReadAcrossX(x) + QuadReadAcrossY(x) + QuadReadAcrossDiagonal(x) + QuadReadLaneAt(x, 0u)@@QuadReadAcrossX(x)@@QuadReadAcrossY(x)@@QuadReadAcrossDiagonal(x)@@QuadReadLaneAt(x, 0u)"),
+    ("intrinsic-atomics-groupshared", "uint", "(InterlockedAdd(gs_pay.start, 1u), InterlockedAnd(gs_pay.start, 1u), InterlockedOr(gs_pay.start, 1u), InterlockedXor(gs_pay.start, 1u), InterlockedMin(gs_pay.start, 1u), InterlockedMax(gs_pay.start, 1u), InterlockedExchange(gs_pay.start, 1u, u), InterlockedCompareExchange(gs_pay.start, 0u, 1u, u), InterlockedCompareStore(gs_pay.start, 0u, 1u), u)@@(InterlockedAdd(gs_pay.start, 1u), u)@@(InterlockedAnd(gs_pay.start, 1u), u)@@(InterlockedOr(gs_pay.start, 1u), u)@@(InterlockedXor(gs_pay.start, 1u), u)@@(InterlockedMin(gs_pay.start, 1u), u)@@(InterlockedMax(gs_pay.start, 1u), u)@@(InterlockedExchange(gs_pay.start, 1u, u), u)@@(InterlockedCompareExchange(gs_pay.start, 0u, 1u, u), u)@@(InterlockedCompareStore(gs_pay.start, 0u, 1u), u)"),
+    ("intrinsic-barriers", "int", "(AllMemoryBarrier(), AllMemoryBarrierWithGroupSync(), DeviceMemoryBarrier(), DeviceMemoryBarrierWithGroupSync(), GroupMemoryBarrier(), GroupMemoryBarrierWithGroupSync(), 0)@@(AllMemoryBarrier(), 0)@@(AllMemoryBarrierWithGroupSync(), 0)@@(DeviceMemoryBarrier(), 0)@@(DeviceMemoryBarrierWithGroupSync(), 0)@@(GroupMemoryBarrier(), 0)@@(GroupMemoryBarrierWithGroupSync(), 0)"),
     ("intrinsic-nonuniform", "float4", "g_t2d.Load(int3(NonUniformResourceIndex(u), 0, 0))"),
-    ("method-texture2d-sample", "float4", "g_t2d.Sample(g_ss, v4.xy) + g_t2d.SampleLevel(g_ss, v4.xy, 0.0f) + g_t2d.SampleBias(g_ss, v4.xy, 0.5f) + g_t2d.SampleGrad(g_ss, v4.xy, v4.xy, v4.zw) + g_t2d.Sample(g_ss, v4.xy, int2(1, 1))"),
-    ("method-texture2d-gather", "float4", "g_t2d.Gather(g_ss, v4.xy, int2(0, 0)) + g_t2d.GatherRed(g_ss, v4.xy, int2(0, 0)) + g_t2d.GatherGreen(g_ss, v4.xy, int2(1, 1)) + g_t2d.GatherBlue(g_ss, v4.xy, int2(0, 0)) + g_t2d.GatherAlpha(g_ss, v4.xy, int2(0, 0), int2(1, 0), int2(0, 1), int2(1, 1))"),
-    ("method-texture2d-compare", "float4", "g_t2d.GatherCmp(g_scs, v4.xy, 0.5f, int2(0, 0)) + g_t2d.GatherCmpRed(g_scs, v4.xy, 0.5f, int2(0, 0)) + g_t2d.SampleCmp(g_scs, v4.xy, 0.5f, int2(0, 0)) + g_t2d.SampleCmpLevelZero(g_scs, v4.xy, 0.5f, int2(0, 0))"),
+    ("method-texture2d-sample", "float4", "g_t2d.Sample(g_ss, v4.xy) + g_t2d.SampleLevel(g_ss, v4.xy, 0.0f) + g_t2d.SampleBias(g_ss, v4.xy, 0.5f) + g_t2d.SampleGrad(g_ss, v4.xy, v4.xy, v4.zw) + g_t2d.Sample(g_ss, v4.xy, int2(1, 1))@@g_t2d.Sample(g_ss, v4.xy)@@g_t2d.SampleLevel(g_ss, v4.xy, 0.0f)@@g_t2d.SampleBias(g_ss, v4.xy, 0.5f)@@g_t2d.SampleGrad(g_ss, v4.xy, v4.xy, v4.zw)@@g_t2d.Sample(g_ss, v4.xy, int2(1, 1))"),
+    ("method-texture2d-gather", "float4", "g_t2d.Gather(g_ss, v4.xy, int2(0, 0)) + g_t2d.GatherRed(g_ss, v4.xy, int2(0, 0)) + g_t2d.GatherGreen(g_ss, v4.xy, int2(1, 1)) + g_t2d.GatherBlue(g_ss, v4.xy, int2(0, 0)) + g_t2d.GatherAlpha(g_ss, v4.xy, int2(0, 0), int2(1, 0), int2(0, 1), int2(1, 1))@@g_t2d.Gather(g_ss, v4.xy, int2(0, 0))@@g_t2d.GatherRed(g_ss, v4.xy, int2(0, 0))@@g_t2d.GatherGreen(g_ss, v4.xy, int2(1, 1))@@g_t2d.GatherBlue(g_ss, v4.xy, int2(0, 0))@@g_t2d.GatherAlpha(g_ss, v4.xy, int2(0, 0), int2(1, 0), int2(0, 1), int2(1, 1))"),
+    ("method-texture2d-compare", "float4", "g_t2d.GatherCmp(g_scs, v4.xy, 0.5f, int2(0, 0)) + g_t2d.GatherCmpRed(g_scs, v4.xy, 0.5f, int2(0, 0)) + g_t2d.SampleCmp(g_scs, v4.xy, 0.5f, int2(0, 0)) + g_t2d.SampleCmpLevelZero(g_scs, v4.xy, 0.5f, int2(0, 0))@@g_t2d.GatherCmp(g_scs, v4.xy, 0.5f, int2(0, 0))@@g_t2d.GatherCmpRed(g_scs, v4.xy, 0.5f, int2(0, 0))@@g_t2d.SampleCmp(g_scs, v4.xy, 0.5f, int2(0, 0))@@g_t2d.SampleCmpLevelZero(g_scs, v4.xy, 0.5f, int2(0, 0))"),
     ("method-wrong-argument-types", "float4", "g_t2d.Gather(g_ss, v4.xy)"),
     ("method-texture-load-dimensions", "float4", "(g_t2d.GetDimensions(u, u), g_t2d.Load(int3(0, 0, 0)) + g_t2d[uint2(0, 0)] + g_t2d.mips[0][uint2(0, 0)] + g_t2da.Load(int4(0, 0, 0, 0)) + g_t3d.Load(int4(0, 0, 0, 0)) + g_t3d.Sample(g_ss, v4.xyz) + g_tc.Sample(g_ss, v4.xyz) + g_tc.SampleLevel(g_ss, v4.xyz, 0.0f) + g_t2da.Sample(g_ss, v4.xyz))"),
     ("method-rwtexture", "float4", "(g_rw2d[uint2(0, 0)] = v4, g_rw2d.Load(int2(0, 0)) + g_rw2d[uint2(1, 1)])"),
     ("method-buffer", "float4", "(g_rwbuf[0] = u, g_buf.Load(0) + g_buf[1] + (float4)g_rwbuf.Load(0))"),
     ("method-structured-buffer", "float", "(g_rwsb[0].a = x, g_sb.Load(0).a + g_sb[1].a + g_rwsb[2].a)"),
-    ("method-byte-address-buffer", "uint", "g_bab.Load(0) + g_bab.Load2(0).x + g_bab.Load3(0).x + g_bab.Load4(0).x + g_bab.Load<uint>(4 * sizeof(uint)) + (uint)g_bab.Load<float4>(0).x + (uint)g_bab.Load<S0>(0).b"),
-    ("method-rw-byte-address-buffer", "uint", "(g_rwbab.Store(0, u), g_rwbab.Store2(0, uint2(u, u)), g_rwbab.Store3(0, uint3(u, u, u)), g_rwbab.Store4(0, uint4(u, u, u, u)), g_rwbab.Store<float>(0, x), g_rwbab.InterlockedAdd(0, 1u, u), g_rwbab.InterlockedCompareExchange(0, 0u, 1u, u), g_rwbab.Load(0))"),
+    ("method-byte-address-buffer", "uint", "g_bab.Load(0) + g_bab.Load2(0).x + g_bab.Load3(0).x + g_bab.Load4(0).x + g_bab.Load<uint>(4 * sizeof(uint)) + (uint)g_bab.Load<float4>(0).x + (uint)g_bab.Load<S0>(0).b@@g_bab.Load(0)@@g_bab.Load2(0).x@@g_bab.Load3(0).x@@g_bab.Load4(0).x@@g_bab.Load<uint>(4 * sizeof(uint))@@(uint)g_bab.Load<float4>(0).x@@(uint)g_bab.Load<S0>(0).b"),
+    ("method-rw-byte-address-buffer", "uint", "(g_rwbab.Store(0, u), g_rwbab.Store2(0, uint2(u, u)), g_rwbab.Store3(0, uint3(u, u, u)), g_rwbab.Store4(0, uint4(u, u, u, u)), g_rwbab.Store<float>(0, x), g_rwbab.InterlockedAdd(0, 1u, u), g_rwbab.InterlockedCompareExchange(0, 0u, 1u, u), g_rwbab.Load(0))@@(g_rwbab.Store(0, u), g_rwbab.Load(0))@@(g_rwbab.Store2(0, uint2(u, u)), g_rwbab.Load(0))@@(g_rwbab.Store3(0, uint3(u, u, u)), g_rwbab.Load(0))@@(g_rwbab.Store4(0, uint4(u, u, u, u)), g_rwbab.Load(0))@@(g_rwbab.Store<float>(0, x), g_rwbab.Load(0))@@(g_rwbab.InterlockedAdd(0, 1u, u), g_rwbab.Load(0))@@(g_rwbab.InterlockedCompareExchange(0, 0u, 1u, u), g_rwbab.Load(0))"),
+    ("diag-array-index-on-non-array", "float", "x[0]"),
+    ("diag-array-index-on-struct", "float", "s0v[0]"),
+    ("diag-array-index-not-integer", "float", "gs0[1.5f]@@gs0[b]@@gs0[v4]@@gs0[s0v]@@gs0[g_t2d]"),
+    ("diag-array-index-out-of-range-constant", "float", "gs0[64]@@gs0[-1]@@gs0[4294967295u]@@v4[4]@@v4[-1]"),
+    ("diag-assert-type-failed", "float", "(assert_type<int>(x), x)"),
+    ("diag-assert-type-invalid", "float", "(assert_type<1>(x), x)@@(assert_type(x), x)@@(assert_type<int, int>(x), x)@@(assert_type<int>(), x)@@(assert_type<int>(x, y), x)"),
+    ("diag-assert-eval-failed", "int", "(assert_eval(1 + 1, 3), 0)"),
+    ("diag-assert-eval-invalid", "int", "(assert_eval(1), 0)@@(assert_eval<1>(1, 1), 0)@@(assert_eval<int, int>(1, 1), 0)@@(assert_eval(i, 1), 0)@@(assert_eval(hf0, 1), 0)@@(assert_eval(1, hf0), 0)@@(assert_eval(g_t2d, 1), 0)@@(assert_eval<Texture2D>(1, 1), 0)@@(assert_eval(1, i), 0)"),
+    ("diag-expected-type-received-expression", "float", "vector<1, 2>(x, y).x"),
+    ("diag-type-as-value", "float", "float + 1"),
+    ("diag-function-passed-as-value", "float", "hf0(hf0)@@hf0"),
+    ("diag-method-passed-as-value", "float4", "g_t2d.Load"),
+    ("diag-identifier-is-not-a-member", "int", "nsv.N0::nx@@nsv.N0::nf"),
+    ("diag-member-for-different-type", "int", "s0v.N0::NS::a"),
+    ("diag-member-on-non-struct", "float", "x.a@@i.b@@b.c@@E0_A.d@@g_ss.e@@hf0.f"),
+    ("diag-invalid-swizzle", "float", "v4.xyzwx.x@@v4.q@@v4.xr@@x.y@@v4._m00"),
+    ("diag-invalid-cast", "float", "(float)g_t2d@@(float)s0v@@(float)g_ss"),
+    ("diag-invalid-cast-to-object", "float4", "((Texture2D<float4>)1).Load(int3(0, 0, 0))@@((S0)x).v@@((S0)v4).v"),
+    ("diag-wrong-type-in-constructor", "float2", "float2(g_t2d, 1)@@float2(s0v, 1)@@float2(1, 2, 3)@@float2()@@float2(v4)@@float3(v4.xy)"),
+    ("diag-ternary-condition-type", "float", "(g_t2d ? 1.0f : 2.0f)@@(s0v ? 1.0f : 2.0f)@@(g_ss ? x : y)"),
+    ("diag-ternary-branch-types", "float", "(b ? g_t2d : x)@@(b ? s0v : 1)@@(b ? v4 : v4.xy).x"),
+    ("diag-binary-operand-types", "float", "(g_t2d + 1)@@(s0v * 2)@@(g_ss == g_ss)@@(x % g_t2d)@@(b << s0v)@@(v4.xy + v4.xyz).x@@(cb_m * v4.xy).x"),
+    ("diag-unary-operand-types", "float", "(-g_t2d)@@(!s0v)@@(~x)@@(~s0v)@@(-g_ss)@@(+hf0)"),
+    ("diag-template-argument-kinds", "float", "ht0<1>(x)@@ht0<float, int>(x)@@ht0<>(x)@@ht0<hf0>(x)@@ht0<Foo>(x)@@ht0<float>(x, y)"),
+    ("diag-template-arguments-on-non-template", "float", "hf0<float>(x)@@x<1>@@c0<int>(1)"),
+    ("diag-call-of-non-function", "float", "x(1)@@c0()@@E0_A(1)@@s0v(1)@@1(2)"),
+    ("diag-ambiguous-overload", "float", "max(i, x)@@max(u, i)@@min(b, x)@@clamp(i, x, u)@@lerp(i, u, b)@@dot(i, v4)@@mul(x, s0v)"),
+    ("diag-intrinsic-argument-count", "float", "sin()@@sin(x, y)@@dot(v4)@@lerp(x, y)@@mul(cb_m)@@abs(x, x)"),
+    ("diag-method-on-wrong-object", "float4", "g_buf.Sample(g_ss, v4.xy)@@g_t2d.Store(0, v4)@@g_ss.Load(0)@@g_rw2d.Sample(g_ss, v4.xy)@@g_bab.Load<Texture2D<float4> >(0).Load(int3(0, 0, 0))"),
+    ("diag-sizeof-invalid", "uint", "sizeof(void)@@sizeof(Texture2D)@@sizeof(hf0)@@sizeof(Foo)@@sizeof(g_ss)"),
+    ("diag-scoped-name-errors", "int", "N0::nope@@Nope::x@@N0::N1::nope()@@::nope@@E0::E0_A@@S0::a@@N0::NS::a@@i::x"),
+    ("diag-string-operands", "int", "(\"a\" + 1)@@hi0(\"s\")@@(int)\"x\""),
     ("method-unknown", "float", "g_t2d.Nope(1)"),
     ("method-template-non-type-argument", "uint", "g_bab.Load<4>(0)"),
 ];
@@ -306,7 +399,21 @@ float4 PSMAIN(uint pid : SV_PrimitiveID, float2 uv : TEXCOORD, uint m : MATERIAL
 /// categories whose template alone is rejected (diagnostic or listed panic) on every target when probed with
 /// `harness c08 synprobe`; they are sampled less often so that most programs reach the exporters
 const SYN_REJECTED: &[&str] = &[
-    "cbuffer-packoffset", "elaborated-type-specifier", "expr-address-of-dereference", "expr-call-unknown", "expr-call-wrong-arity",
+    "cbuffer-packoffset", "diag-array-dimension-local-unspecified", "diag-array-dimension-negative", "diag-array-dimension-not-constant",
+    "diag-array-dimension-zero", "diag-array-index-on-non-array", "diag-array-index-on-struct", "diag-assert-eval-failed", "diag-assert-eval-invalid",
+    "diag-assert-type-failed", "diag-assert-type-invalid", "diag-bindless-cbuffer", "diag-call-of-non-function", "diag-cbuffer-already-defined",
+    "diag-cbuffer-annotations", "diag-default-argument-missing", "diag-default-template-argument-missing", "diag-entry-point-overloaded",
+    "diag-entry-point-template", "diag-enum-type-not-deduced", "diag-enum-value-already-defined", "diag-expected-type-received-expression",
+    "diag-function-attribute-argument-count", "diag-function-passed-as-value", "diag-global-attribute-argument-count",
+    "diag-global-attribute-argument-type", "diag-identifier-is-not-a-member", "diag-illegal-names", "diag-illegal-struct-base",
+    "diag-illegal-struct-name", "diag-illegal-typedef-name", "diag-illegal-variable-name", "diag-incomplete-type", "diag-increment-of-rvalue",
+    "diag-intrinsic-argument-count", "diag-invalid-output-topology", "diag-local-annotations", "diag-local-incomplete-type",
+    "diag-member-for-different-type", "diag-member-on-non-struct", "diag-method-on-wrong-object", "diag-method-passed-as-value",
+    "diag-modifier-conflict", "diag-modifier-on-wrong-type", "diag-pipeline-argument-types", "diag-pipeline-redefined", "diag-register-on-non-object",
+    "diag-return-type-mismatch", "diag-sampler-property-argument-types", "diag-scoped-declaration-name", "diag-semantic-on-global",
+    "diag-string-operands", "diag-struct-already-defined", "diag-template-arguments-on-non-template", "diag-template-parameter-redefined",
+    "diag-ternary-condition-type", "diag-two-registers", "diag-type-as-value", "diag-unary-operand-types", "diag-unknown-type",
+    "diag-wrong-type-in-constructor", "elaborated-type-specifier", "expr-address-of-dereference", "expr-call-unknown", "expr-call-wrong-arity",
     "expr-cast-pointer-type", "expr-literal-int64", "expr-literal-leading-dot", "expr-shift-spaced-tokens", "expr-template-less-than-ambiguity",
     "expr-ternary-vector-condition", "function-attribute-unknown", "function-declared-only", "function-pointer-declarator",
     "function-template-default", "global-empty-aggregate", "global-register-mismatched-class", "global-unknown-attribute", "lex-at-sign",
@@ -320,7 +427,7 @@ const SYN_REJECTED: &[&str] = &[
     "unused-keyword-constexpr", "unused-keyword-decltype",
 ];
 
-pub const SYN_BODY_PRELUDE: &str = "    float x = 1.0f; float y = 2.0f; int i = 0; uint u = 1u; bool b = true; float4 v4 = float4(1, 2, 3, 4); N0::NS nsv; nsv.a = 1;\n";
+pub const SYN_BODY_PRELUDE: &str = "    float x = 1.0f; float y = 2.0f; int i = 0; uint u = 1u; bool b = true; float4 v4 = float4(1, 2, 3, 4); N0::NS nsv; nsv.a = 1; S0 s0v = (S0)0;\n";
 
 /// every category name the generator knows (published with a zero count when not emitted in a run)
 pub fn syn_categories() -> Vec<&'static str> {
@@ -330,8 +437,24 @@ pub fn syn_categories() -> Vec<&'static str> {
     v
 }
 
+/// number of alternatives (`@@`-separated sub-cases) of a category's template
+pub fn syn_alternatives(cat: &str) -> usize {
+    let t = SYN_ROOT.iter().find(|x| x.0 == cat).map(|x| x.1).or(SYN_STMT.iter().find(|x| x.0 == cat).map(|x| x.1)).or(SYN_EXPR.iter().find(|x| x.0 == cat).map(|x| x.2));
+    t.map(|t| t.split("@@").count()).unwrap_or(1)
+}
+
+/// every (category, alternative) pair: the `synone:<k>` sweep runs each of them once per check
+pub fn syn_variants() -> Vec<(&'static str, usize)> {
+    syn_categories().into_iter().flat_map(|c| (0..syn_alternatives(c)).map(move |a| (c, a))).collect()
+}
+
+fn syn_alt(text: &'static str, alt: usize) -> &'static str {
+    let v: Vec<&'static str> = text.split("@@").collect();
+    v[alt % v.len()]
+}
+
 /// the item of one category alone (prelude + item + compute pipeline): used to probe each template
-pub fn syn_single(cat: &str) -> Option<String> {
+pub fn syn_single(cat: &str, alt: usize) -> Option<String> {
     let mut n = 0u32;
     let mut fresh = |t: &str| {
         n += 1;
@@ -341,13 +464,13 @@ pub fn syn_single(cat: &str) -> Option<String> {
     let mut calls = String::new();
     let mut pipe = SYN_PIPE[0].1.to_string();
     if let Some(r) = SYN_ROOT.iter().find(|x| x.0 == cat) {
-        out.push_str(&fresh(r.1));
+        out.push_str(&fresh(syn_alt(r.1, alt)));
         out.push('\n');
     } else if let Some(s) = SYN_STMT.iter().find(|x| x.0 == cat) {
-        out.push_str(&format!("void fn1() {{\n{}    {}\n}}\n", SYN_BODY_PRELUDE, s.1.replace('\n', "\n    ")));
+        out.push_str(&format!("void fn1() {{\n{}    {}\n}}\n", SYN_BODY_PRELUDE, syn_alt(s.1, alt).replace('\n', "\n    ")));
         calls.push_str("fn1(); ");
     } else if let Some(e) = SYN_EXPR.iter().find(|x| x.0 == cat) {
-        out.push_str(&format!("void fn1() {{\n{}    {} e1 = {};\n}}\n", SYN_BODY_PRELUDE, e.1, e.2));
+        out.push_str(&format!("void fn1() {{\n{}    {} e1 = {};\n}}\n", SYN_BODY_PRELUDE, e.1, syn_alt(e.2, alt)));
         calls.push_str("fn1(); ");
     } else if let Some(p) = SYN_PIPE.iter().find(|x| x.0 == cat) {
         pipe = p.1.to_string();
@@ -377,6 +500,7 @@ pub fn gen_syn(rng: &mut Rng) -> SynProgram {
     let nr = 1 + rng.below(6);
     for _ in 0..nr {
         let (cat, text) = syn_pick(rng, SYN_ROOT, |x| x.0);
+        let text = syn_alt(text, rng.below(64) as usize);
         cats.insert(cat);
         n += 1;
         out.push_str(&text.replace("{n}", &n.to_string()));
@@ -392,11 +516,13 @@ pub fn gen_syn(rng: &mut Rng) -> SynProgram {
         for _ in 0..ns {
             if rng.chance(1, 2) {
                 let (cat, text) = syn_pick(rng, SYN_STMT, |x| x.0);
+                let text = syn_alt(text, rng.below(64) as usize);
                 cats.insert(cat);
                 // a statement item is a scope of its own, so that local names of two items do not collide
                 out.push_str(&format!("    {{ {} }}\n", text.replace('\n', "\n      ")));
             } else {
                 let (cat, ty, e) = syn_pick(rng, SYN_EXPR, |x| x.0);
+                let e = syn_alt(e, rng.below(64) as usize);
                 cats.insert(cat);
                 n += 1;
                 out.push_str(&format!("    {} e{} = {};\n", ty, n, e));
